@@ -530,6 +530,46 @@ func NestedScenarios() []Scenario {
 	return out
 }
 
+// OptionScenarios: every combination of the options that steer FindOneAnd*, Update*, ReplaceOne and Delete* through
+// different code paths (what the filter matches, upsert, which image is returned, projection, sort), each on a
+// fresh small collection and judged like any other call.
+func OptionScenarios() []Scenario {
+	var out []Scenario
+	docs := []bson.D{d("_id", int32(1), "a", int32(1), "b", bson.A{int32(1), int32(2), int32(3)}), d("_id", int32(2), "a", int32(2), "b", bson.A{}), d("_id", int32(3), "a", int32(2))}
+	filters := map[string]bson.D{"one": d("_id", int32(1)), "none": d("_id", int32(99)), "many": d("a", d("$gte", int32(1))), "none-eq": d("a", int32(7), "c", "x")}
+	projs := map[string]bson.D{"none": nil, "incl": d("a", int32(1)), "excl": d("a", int32(0)), "noid": d("_id", int32(0), "b", int32(1)), "slice": d("b", d("$slice", int32(1))), "mixed": d("a", int32(1), "b", int32(0))}
+	sorts := map[string]bson.D{"none": nil, "desc": d("a", int32(-1), "_id", int32(-1)), "bad": d("a", "up")}
+	for _, fk := range []string{"one", "none", "many", "none-eq"} {
+		for _, upsert := range []bool{false, true} {
+			fk, upsert := fk, upsert
+			q := filters[fk]
+			out = append(out, Scenario{Name: "options/plain/" + fk, Calls: func(e *Env) []Call {
+				return []Call{e.InsertMany(sns, docs, true),
+					e.Update(sns, false, q, d("$inc", d("a", int32(1))), upsert, nil),
+					e.Update(sns, true, q, d("$set", d("z", int32(1))), upsert, nil),
+					e.Update(sns, true, q, d("$set", d("z", int32(1))), upsert, nil), // no-op the second time
+					e.ReplaceOne(sns, q, d("a", int32(7)), upsert),
+					e.Delete(sns, false, q), e.Delete(sns, true, q), e.Find(sns, d(), d("_id", int32(1)), nil, 0, 0)}
+			}})
+			for _, after := range []bool{false, true} {
+				for _, pk := range []string{"none", "incl", "excl", "noid", "slice", "mixed"} {
+					for _, sk := range []string{"none", "desc", "bad"} {
+						after, pk, sk := after, pk, sk
+						out = append(out, Scenario{Name: "options/findAndModify/" + fk + "/" + pk + "/" + sk, Calls: func(e *Env) []Call {
+							return []Call{e.InsertMany(sns, docs, true),
+								e.FindOneAndUpdate(sns, q, d("$inc", d("a", int32(1))), sorts[sk], projs[pk], upsert, after, nil),
+								e.FindOneAndReplace(sns, q, d("a", int32(7), "b", bson.A{int32(9)}), sorts[sk], projs[pk], upsert, after),
+								e.FindOneAndDelete(sns, q, sorts[sk], projs[pk]),
+								e.Find(sns, d(), d("_id", int32(1)), nil, 0, 0)}
+						}})
+					}
+				}
+			}
+		}
+	}
+	return out
+}
+
 // RunScenarios executes scenarios, a fresh engine each.
 func RunScenarios(scs []Scenario, mk func() *Env, each func(e *Env)) {
 	for i, sc := range scs {
